@@ -910,7 +910,7 @@ func (x *Exec) linkAbstractDefinitions(st *State, v SV, it types.Type, arg Val) 
 			}
 			for abs, conc := range rf.Subst {
 				as := x.DB.LookupSpec("", ip+"."+abs)
-				if as == nil || len(as.Params) != 1 || as.Body != nil {
+				if as == nil || len(as.Params) < 1 || as.Body != nil {
 					continue
 				}
 				key := "link:" + abs + ":" + v.T.String()
@@ -918,7 +918,22 @@ func (x *Exec) linkAbstractDefinitions(st *State, v SV, it types.Type, arg Val) 
 					continue
 				}
 				env := &Env{x: x, st: st, old: st, vars: map[string]SV{"linked__": {T: v.T, Typ: it}}, pkg: m.Pkg, allocOld: st.alloc}
-				e := &EBinary{Op: "==", X: &ECall{Fn: ip + "." + abs, Args: []Expr{&EIdent{Name: "linked__"}}}, Y: &ECall{Fn: conc, Args: []Expr{&EIdent{Name: "linked__"}}}}
+				aargs := []Expr{&EIdent{Name: "linked__"}}
+				var binders []Binder
+				for i, p := range as.Params[1:] {
+					bn := fmt.Sprintf("linked_arg%d__", i)
+					t := p.T
+					// the abstract function's parameter types are written relative to its own package
+					if !strings.Contains(t.Text, ".") && t.Text != "int" && t.Text != "real" && t.Text != "bool" && t.Text != "string" && !strings.HasPrefix(t.Text, "[]") && !strings.HasPrefix(t.Text, "*") && !strings.HasPrefix(t.Text, "func") {
+						t = TypeExpr{Text: ip + "." + t.Text}
+					}
+					binders = append(binders, Binder{Name: bn, T: t})
+					aargs = append(aargs, &EIdent{Name: bn})
+				}
+				var e Expr = &EBinary{Op: "==", X: &ECall{Fn: ip + "." + abs, Args: aargs}, Y: &ECall{Fn: conc, Args: aargs}}
+				if len(binders) > 0 {
+					e = &EQuant{Forall: true, Vars: binders, Body: e}
+				}
 				func() {
 					defer func() {
 						if r := recover(); r != nil {
